@@ -389,7 +389,9 @@ class Recfile(object):
                 result = self._read_columns(colnums, rows)
 
         if isscalar:
-            result = result[columns]
+            if fields is None:
+                fields = columns
+            result = result[fields]
         elif split:
             result = split_fields(result)
 
